@@ -208,8 +208,15 @@ FamLets(dummy) ==
       Hs == {<<>>} \cup (IF Tier = "quick" THEN {<<Hd("map")>>, <<Hd("then")>>} ELSE {<<Hd(h)>> : h \in {"map", "and_then", "then"}})
   IN  {Inp(kd, <<>>, bs \o h) : kd \in Kinds8, bs \in Bs, h \in Hs}
 
+\* options x handlers: every pair of options in front of 1-2 branches with each handler kind (or none), 8 kinds
+FamOptsH(dummy) ==
+  LET Plainb == Br("none", <<Plain("map")>>)
+  IN  {Inp(kd, o, bs \o h) : kd \in Kinds8, o \in SeqsUpTo(OptionNames, 2), bs \in {<<Plainb>>, <<Plainb, Plainb>>},
+                             h \in {<<>>} \cup {<<Hd(x)>> : x \in {"map", "and_then", "then"}}}
+
 Inputs(dummy) ==
   TLCEval(CASE Family = "wrap" -> FamWrap(0)
+            [] Family = "optsh" -> FamOptsH(0)
             [] Family = "lets" -> FamLets(0)
             [] Family = "ops" -> FamOps(0)
             [] Family = "opts" -> FamOpts(0)
